@@ -43,6 +43,19 @@ func C04(t *rapid.T) *world.Scenario {
 	for i := range pool {
 		pool[i] = c04Headers(t, "pool"+itoa(int64(i)))
 	}
+	if Pct(t, "family", 40) {
+		// re-splits of one string: the same characters distributed differently over the
+		// nominated fields (an identity derived from undelimited text cannot tell them apart)
+		p, q, r := Pick(t, "fp", "1", "a", ""), Pick(t, "fq", "2", "", "b"), Pick(t, "fr", "3", "2", "c")
+		sep := Pick(t, "fsep", "X-B", "X-B", "x-b", ",X-B,", "X-B:")
+		pool = [][][2]string{
+			{H("X-A", p), H("X-B", q+sep+r)},
+			{H("X-A", p+sep+q), H("X-B", r)},
+			{H("X-A", p+sep+q+sep+r)},
+			{H("X-A", p), H("X-B", q)},
+			{H("X-A", p+sep+q)},
+		}
+	}
 	for i := 0; i < n; i++ {
 		lbl := "s" + itoa(int64(i))
 		if i > 0 && Pct(t, lbl+"-sleep", 10) {
@@ -78,7 +91,7 @@ func C19(t *rapid.T, n int) *world.Scenario {
 	sc := &world.Scenario{Prop: "C19", Backend: "mem"}
 	uris := []string{"http://a.test/c19/a", "http://a.test/c19/b", "http://b.test/c19"}[:rapid.IntRange(1, 3).Draw(t, "nuri")]
 	combos := [][][2]string{nil, {H("X-A", "1")}, {H("X-A", "2"), H("X-B", "1")}}[:rapid.IntRange(1, 3).Draw(t, "ncombo")]
-	varyPool := []string{"", "X-A", "*", "X-A, X-B", "X-B"}
+	varyPool := []string{"", "X-A", "*", "X-A, X-B", "X-B", "X-A, *", "*, X-B"}
 	nv := rapid.IntRange(1, 3).Draw(t, "nvary")
 	varies := make([]string, nv)
 	for i := range varies {
@@ -116,6 +129,10 @@ func C19(t *rapid.T, n int) *world.Scenario {
 	if Pct(t, "unsafe", 50) {
 		rq := &world.Req{Method: Pick(t, "um", "POST", "DELETE", "PUT"), URL: uris[0]}
 		rq.Uncond = world.Reply{Kind: "resp", Status: Pick(t, "ust", 200, 204, 500), Body: world.Body{Len: 4}, Header: [][2]string{H("Date", "$T+0")}}
+		// same-origin targets named by the response are invalidated as well
+		if loc := Pick(t, "uloc", "", "/c19/b", "http://a.test/c19/b", "/c19/a"); loc != "" {
+			rq.Uncond.Header = append(rq.Uncond.Header, H(Pick(t, "ulocf", "Location", "Content-Location"), loc))
+		}
 		alphabet = append(alphabet, ReqStep(rq))
 	}
 	alphabet = append(alphabet, SleepStep(Pick(t, "sl", int64(1), 6, 40)))
